@@ -70,6 +70,10 @@ pub fn registry() -> Vec<(&'static str, &'static str, MonFn)> {
         #[cfg(not(feature = "pointer"))]
         ("c15_case", "C15", c15::c15_case as MonFn),
         ("c19_lifecycle", "C19", c19::lifecycle as MonFn),
+        #[cfg(not(feature = "pointer"))]
+        ("c19_ffi", "C19", c19::c19_ffi as MonFn),
+        #[cfg(not(feature = "pointer"))]
+        ("c19_ffi_enum", "C19", c19::c19_ffi_enum as MonFn),
         ("c12_natural", "C12", c12::natural as MonFn),
         ("c12_satcount", "C12", c12::satcount as MonFn),
         ("c12_cache", "C12", c12::cache as MonFn),
